@@ -10,6 +10,7 @@ across different fields.  Values equal to field names are generated on purpose
 (a) correspondence: model parse_row vs implementation parse_row on every encoding and on a
     stream of encodings that violate a side condition;
 (b) oracle on the implementation: the two parsed instances are equal (and equal the value)."""
+import c09_history
 import rowgen
 import rowlib
 from c07 import (_deep_eq, _show_ty, _jsonable_ty, _ty_from_json, ask_all, norm_res, impl_parse, flow_desc,
@@ -735,7 +736,13 @@ def run(ctx):
 
     # ------------------------------------------------ flow rows: short vs long headers, * columns
     desc = flow_desc()
-    cx = flow_ctx_tables()
+    cx, refusal = c09_history.safe_flow_tables()
+    if refusal:
+        # the behavioural probe of the header tables refuses this tree (the driver reports the translator); the streams
+        # run on the tables read from the source
+        ctx.disagree("flow header tables: the behavioural probe refuses this tree", "FlowRowModel.header_name_to_field_name_with_context",
+                     "tables as probed by the translator", refusal[:300])
+        stats["flow_tables_from_source"] = refusal[:300]
     parser = RowParser(FlowRowModel, CellParser())
     n_flow = (8000 if thorough else 700) * ctx.scale
     fstats = {"pairs": 0, "no_two_encodings": 0, "padded_type_cell": 0, "padded_type_cell_with_short_main_header": 0}
@@ -925,6 +932,11 @@ def run(ctx):
             if (mo[0] == "ok") != (r[0] == "ok") or (mo[0] == "ok" and mo[1] != r[1]):
                 ctx.disagree("header_name_to_field_name_with_context", repr((h, rt)), mo, r)
 
+    # ------------------------------------------------ SHEETS: sequences of rows on one long-lived RowParser / CellParser
+    # (harness/c09_history.py: every row against a fresh parser, an isolated process, the other layouts of its value
+    # in the same sheet, and the extracted state machine rp_run)
+    sheet_samples = c09_history.run_sheets(ctx, nontrivial)
+
     stats["flow"] = fstats
     ctx.stats["c09"] = stats
     v.coverage["distinct_nontrivial"] = len(nontrivial)
@@ -939,11 +951,18 @@ def run(ctx):
         "values) / one non-default scalar to broadcast / absent, always at least one of each of the first three, in column "
         "orders longest-first, longest-last, reversed, random, each compared with the indexed layout of the same value; "
         "30% of the generic values additionally get an "
-        "encoding that ignores the keyword/positional side condition (correspondence only). non-trivial = distinct pair "
-        "of different cell lists")
-    v.coverage["samples"] = samples[:10]
+        "encoding that ignores the keyword/positional side condition (correspondence only); SHEETS: generated sequences of rows "
+        "for one model (generic families, flow rows) on ONE RowParser + CellParser, a second parser for another model beside it: "
+        "several layouts of 1-3 values per sheet incl. layouts with a field written as a native {@ @} literal (lists, range(n), "
+        "comparisons, ints, strings) or a cell written as a {{ }} template over a shared context object, failing rows, contexts "
+        "omitted / {} / None / shared, SheetParser's include_if pre-evaluation; every row compared with a fresh parser, with an "
+        "isolated process, with the other layouts of its value in the sheet and with the extracted state machine rp_run "
+        "(distribution: stats.sheet_histories). non-trivial = distinct pair of different cell lists / distinct set of layouts "
+        "of one value within a sheet")
+    v.coverage["samples"] = samples[:10] + sheet_samples
     v.assumptions += [
-        "cells contain no Jinja template opener: the model's cell parser is CellParser.parse without templating",
+        "model side: cells contain no Jinja template opener (the model's cell parser is CellParser.parse without templating); "
+        "rows with native / templated cells are judged on the implementation only (fresh parser, isolated process, layouts of one value)",
         "the side conditions of Encodes (a positional record of two entries must not start with a field name; no blank "
         "last entry in a packed list) are part of the statement, as in the property text",
     ]
@@ -969,6 +988,8 @@ def replay(rep):
     from rpft.parsers.creation.flowrowmodel import FlowRowModel
 
     r = rep["replay"]
+    if r["fn"] in ("sheet", "sheets"):
+        return c09_history.replay_sheet(r)
     if r["fn"] == "witness":
         if r.get("flow"):
             parser = RowParser(FlowRowModel, CellParser())
